@@ -108,6 +108,16 @@ func (d *DS) point(ctx context.Context, op string, key string) error {
 	return nil
 }
 
+// post is a second scheduling point after the operation took effect and before
+// its result reaches the caller ("the reply is slow"). It is enabled per run by
+// the buggify option "ds-post-yield", so that the window between a store
+// operation and what the caller does next with its result is reachable.
+func (d *DS) post(op string) {
+	if d.S != nil && !d.Quiet && d.S.Buggify("ds-post-yield") {
+		d.S.Yield("ds." + op + ".ret")
+	}
+}
+
 func shortKey(k string) string {
 	if len(k) > 28 {
 		return k[:10] + ".." + k[len(k)-14:]
@@ -116,6 +126,7 @@ func shortKey(k string) string {
 }
 
 func (d *DS) Get(ctx context.Context, key ds.Key) ([]byte, error) {
+	defer d.post("get")
 	if err := d.point(ctx, "get", key.String()); err != nil {
 		return nil, err
 	}
@@ -127,6 +138,7 @@ func (d *DS) Get(ctx context.Context, key ds.Key) ([]byte, error) {
 }
 
 func (d *DS) Has(ctx context.Context, key ds.Key) (bool, error) {
+	defer d.post("has")
 	if err := d.point(ctx, "has", key.String()); err != nil {
 		return false, err
 	}
@@ -135,6 +147,7 @@ func (d *DS) Has(ctx context.Context, key ds.Key) (bool, error) {
 }
 
 func (d *DS) GetSize(ctx context.Context, key ds.Key) (int, error) {
+	defer d.post("getsize")
 	if err := d.point(ctx, "getsize", key.String()); err != nil {
 		return -1, err
 	}
@@ -146,6 +159,7 @@ func (d *DS) GetSize(ctx context.Context, key ds.Key) (int, error) {
 }
 
 func (d *DS) Put(ctx context.Context, key ds.Key, value []byte) error {
+	defer d.post("put")
 	if err := d.point(ctx, "put", key.String()); err != nil {
 		return err
 	}
@@ -154,6 +168,7 @@ func (d *DS) Put(ctx context.Context, key ds.Key, value []byte) error {
 }
 
 func (d *DS) Delete(ctx context.Context, key ds.Key) error {
+	defer d.post("delete")
 	if err := d.point(ctx, "delete", key.String()); err != nil {
 		return err
 	}
@@ -277,6 +292,7 @@ func (b *batch) Delete(ctx context.Context, key ds.Key) error {
 }
 
 func (b *batch) Commit(ctx context.Context) error {
+	defer b.d.post("commit")
 	if err := b.d.point(ctx, "commit", fmt.Sprint(len(b.ops))); err != nil {
 		return err
 	}
